@@ -148,7 +148,7 @@ func (b *verifBody) Read(p []byte) (int, error) {
 func (b *verifBody) Close() error { b.closed = true; return nil }
 
 // VerifC14Request: the request side. Declared (Content-Length) or chunked
-// bodies of 0..5 bytes against any limit 1..4.
+// bodies of 0..5 bytes against any limit 1..4, under nine request methods.
 func VerifC14Request() {
 	limit := verifrt.IntRange("max_request_body", 1, 4)
 	mw, err := newSizeLimitMiddleware("size_limit", map[string]interface{}{"max_request_body": limit})
@@ -156,7 +156,8 @@ func VerifC14Request() {
 	size := verifrt.Choice("bodySize", 6)
 	chunked := verifrt.Bool("chunked")
 	r := verifRequest()
-	r.Method = "POST"
+	// any method may carry a body on the wire (a GET or DELETE with a chunked body is legal HTTP): the limit is about bytes, not verbs
+	r.Method = []string{"POST", "PUT", "PATCH", "DELETE", "GET", "HEAD", "OPTIONS", "TRACE", "PROPFIND"}[verifrt.Choice("method", 9)]
 	r.Body = &verifBody{left: size}
 	if chunked {
 		r.ContentLength = -1
